@@ -6,8 +6,11 @@ import (
 	"bytes"
 	"context"
 	"fmt"
+	"io"
 	"net"
 	"time"
+
+	"github.com/pkg/errors"
 
 	"github.com/tokenized/config"
 	"github.com/tokenized/pkg/bitcoin"
@@ -88,6 +91,7 @@ func (cs *ClientSim) dial(network, addr string, timeout time.Duration) (net.Conn
 	}
 	simrt.Sleep(link.latency())
 	clientSide, svcSide := NewConnPair(link, "client", "service")
+	clientSide.KeepWrites = true
 	simrt.Eventf("dial", "service connection #%d", len(cs.Svc.Conns))
 	cs.Svc.accept(svcSide, clientSide)
 	return clientSide, nil
@@ -433,4 +437,63 @@ func (s *Service) buildAccept(hash bitcoin.Hash32, mode string) *client.AcceptRe
 		acc.MessageCount++
 	}
 	return acc
+}
+
+// WrittenMsg is a message found in the bytes the client wrote to a connection.
+type WrittenMsg struct {
+	At  time.Duration // time of the write that completed it
+	Msg client.MessagePayload
+}
+
+// Written parses everything the client wrote on this connection, whether or not the service read it.
+func (sc *SvcConn) Written() []WrittenMsg {
+	var all []byte
+	var ends []int
+	var times []time.Duration
+	for _, w := range sc.ClientSide.WriteLog {
+		all = append(all, w.Data...)
+		ends = append(ends, len(all))
+		times = append(times, w.At)
+	}
+	var out []WrittenMsg
+	r := bytes.NewReader(all)
+	for r.Len() > 0 {
+		m := &client.Message{}
+		if err := m.Deserialize(r); err != nil {
+			break // a partially written message at the end
+		}
+		pos := len(all) - r.Len()
+		at := time.Duration(0)
+		for i, e := range ends {
+			if e >= pos {
+				at = times[i]
+				break
+			}
+		}
+		out = append(out, WrittenMsg{At: at, Msg: m.Payload})
+	}
+	return out
+}
+
+// WrittenBytes parses the client's writes and reports how many bytes form whole messages and, if
+// parsing stopped for another reason than a truncated tail, why.
+func (sc *SvcConn) WrittenBytes() (int, string) {
+	var all []byte
+	for _, w := range sc.ClientSide.WriteLog {
+		all = append(all, w.Data...)
+	}
+	r := bytes.NewReader(all)
+	good := 0
+	for r.Len() > 0 {
+		m := &client.Message{}
+		if err := m.Deserialize(r); err != nil {
+			cause := errors.Cause(err)
+			if cause == io.EOF || cause == io.ErrUnexpectedEOF {
+				return good, "" // a message cut short by a connection end
+			}
+			return good, err.Error()
+		}
+		good = len(all) - r.Len()
+	}
+	return good, ""
 }
